@@ -182,7 +182,16 @@ impl Property for C09 {
         } else {
             let Some(p) = program_of(case) else { return Verdict::Skip("malformed-case") };
             let mut rng = Rng::new(digest(case));
-            p.files.iter().map(|(n, t)| (n.clone(), restyle(t, &mut rng, true))).collect()
+            let mut v: Vec<(String, String)> = p.files.iter().map(|(n, t)| (n.clone(), restyle(t, &mut rng, true))).collect();
+            // a fifth of the workspaces: the last header includes the root back (an include cycle through the
+            // document that is open and edited: its text is reached again while its own sources are collected)
+            if rng.chance(1, 5) && v.len() >= 2 {
+                if let Some(h) = v.iter_mut().skip(1).filter(|f| !f.0.contains('/')).last() {
+                    let root = p.files[0].0.clone();
+                    h.1.push_str(&format!("\ninclude \"{root}\"\n"));
+                }
+            }
+            v
         };
         struct Names {
             files: Vec<(String, String)>,
